@@ -5,6 +5,7 @@ package main
 
 import (
 	"bytes"
+	"context"
 	"errors"
 	"flag"
 	"fmt"
@@ -73,6 +74,26 @@ func (s *script) ServeHTTP(w http.ResponseWriter, r *http.Request) {
 		w.Write(s.payload)
 	}
 }
+
+type modeStore struct {
+	mode string
+	data []byte
+}
+
+func (m *modeStore) GetChunk(id desync.ChunkID) (*desync.Chunk, error) {
+	switch m.mode {
+	case "ok":
+		return desync.NewChunk(m.data), nil
+	case "missing":
+		return nil, desync.ChunkMissing{ID: id}
+	case "invalid":
+		return nil, desync.ChunkInvalid{ID: id}
+	}
+	return nil, errors.New("i/o error in the served store")
+}
+func (m *modeStore) HasChunk(desync.ChunkID) (bool, error) { return true, nil }
+func (m *modeStore) Close() error                            { return nil }
+func (m *modeStore) String() string                          { return "mode" }
 
 func classErr(err error) string {
 	var mi desync.ChunkMissing
@@ -350,6 +371,30 @@ func main() {
 			os.MkdirAll(filepath.Join(sdir, bs[:4], bs+".cacnk"), 0755)
 			step("a store failure on the server is reported as a failure, not as missing", get(bad, nil), "error")
 		}
+	}
+	// ---- casync protocol, in process: the real ProtocolServer over a store that fails / misses / delivers
+	for _, mode := range []string{"ok", "missing", "fails", "invalid"} {
+		cr, sw := io.Pipe()
+		sr, cw := io.Pipe()
+		srv := desync.NewProtocolServer(sr, sw, &modeStore{mode: mode, data: data})
+		go func() { srv.Serve(context.Background()); sw.Close(); sr.Close() }()
+		cl := desync.NewProtocol(cr, cw)
+		res := "error"
+		if _, err := cl.Initialize(desync.CaProtocolPullChunks); err == nil {
+			c, err := cl.RequestChunk(chunk.ID())
+			res = classErr(err)
+			if err == nil {
+				d, derr := c.Data()
+				if derr != nil || !bytes.Equal(d, data) {
+					res = "okbad"
+				}
+			}
+		}
+		cw.Close()
+		cr.Close()
+		want := map[string]string{"ok": "ok", "missing": "missing", "fails": "error", "invalid": "error"}[mode]
+		w.Emit(trace.M("ev", "proto", "step", "in-process server over a store that answers '"+mode+"'", "res", res, "want", want))
+		n++
 	}
 	if err := w.Close(); err != nil {
 		fmt.Fprintln(os.Stderr, err)
